@@ -330,6 +330,7 @@ def run(ck):
     from mininec.mininec import Skin_Effect_Load, Insulation_Load
     import random
     ck.proof_side()
+    ck.cov['further_clauses'] = 'feed-shift clause takes one object through a three-step frequency sweep'
     d = ck.get_driver()
     rng = ck.rng
     dis = lumped_cases(rng, d, ck, 400 if ck.tier == 'quick' else 6000)
